@@ -100,43 +100,43 @@ theorem f_comm (a b : Cmd) (h : ¬ dep a b) : f a * f b = f b * f a := by
       apply h
       exact ⟨w, by simp [Cmd.wires, ha], by simp [Cmd.wires, hb, hw]⟩
 
-def lawful : Lawful f where
+def lawful : Lawful (fun _ => True) f where
   θ := θ
   G := fun _ r _ x => onHead r (fun y => y + x)
   C := fun _ r _ t => onHead r (fun y => t * y)
   D := fun _ _ _ => 1
   f_id := fun c i => rfl
   gate_f := by
-    intro c p t hr _ hp
+    intro c p t _ hr _ hp
     simp [f, loc, hr, hp]
   gate_add := by
-    intro k r t x y
+    intro k r t x y _
     rw [onHead_mul]
     congr 1
     funext z
     ring
   gate_zero := by
-    intro k r t
+    intro k r t _
     simpa using onHead_id r
   chan_f := by
-    intro c x t hr hp
+    intro c x t _ hr hp
     simp [f, loc, hr, hp]
   chan_mul := by
-    intro k r t x y
+    intro k r t x y _
     rw [onHead_mul]
     congr 1
     funext z
     ring
   chan_one := by
-    intro k r t
+    intro k r t _
     simpa using onHead_id r
   mat_f := by
-    intro c A hr _
+    intro c A _ hr _
     simp [f, loc, hr, onHead_id]
   mat_mul := by intros; simp
   mat_one := by intros; rfl
   prep_absorb := by
-    intro a b ha hb hr _ _
+    intro a b _ ha hb hr _ _
     unfold f
     rw [hr, onHead_mul]
     congr 1
@@ -144,7 +144,7 @@ def lawful : Lawful f where
     simp only [loc, hb]
     cases b.pars <;> rfl
   fourier_inv := by
-    intro a b ha hcls hr _
+    intro a b _ ha hcls hr _
     unfold f
     have hb : ruleOf b.cls = .fourier := hcls ▸ ha
     rw [hr, onHead_mul]
